@@ -245,6 +245,93 @@ def run_logic(ctx):
             ctx.ok("logic", c, "agrees on all formulas with this top connective")
 
 
+ORD = ("Less", "Equal", "Greater")
+WANT = {"Lt": {"Less"}, "Le": {"Less", "Equal"}, "Gt": {"Greater"}, "Ge": {"Greater", "Equal"}}
+
+
+def ord_eval(e, inp):
+    """value of a compare_values arm body when values_compare(..) yields `inp` (None or one of ORD); None = not recognised"""
+    e = H.strip(e)
+    k = e.get("k")
+
+    def is_cmp_call(x):
+        x = H.strip(x)
+        return x.get("k") == "call" and str(x.get("callee", "")).endswith("sase::values_compare")
+
+    def some_of(x):
+        x = H.strip(x)
+        if x.get("k") == "call" and str(x.get("callee", "")).endswith("Option::Some") and x["args"]:
+            a = H.strip(x["args"][0])
+            if a.get("k") == "path" and "cmp::Ordering::" in str(a.get("res", "")):
+                return a["res"].rsplit("::", 1)[1]
+        if x.get("k") == "path" and str(x.get("res", "")).endswith("Option::None"):
+            return "None"
+        return None
+    if k == "un" and e["op"] == "Not":
+        v = ord_eval(e["e"], inp)
+        return None if v is None else (not v)
+    if k == "bin" and e["op"] in ("Eq", "Ne"):
+        for a, b in ((e["l"], e["r"]), (e["r"], e["l"])):
+            if is_cmp_call(a) and some_of(b) is not None:
+                want = some_of(b)
+                eq = (inp is None and want == "None") or (inp is not None and inp == want)
+                return eq if e["op"] == "Eq" else not eq
+        return None
+    if k == "match" and is_cmp_call(e["scrut"]):
+        for arm in e["arms"]:
+            ps = H.pat_str(arm["pat"])
+            body = H.strip(arm["body"])
+            if body.get("k") != "lit":
+                return None
+            val = body["v"]["v"] == "true"
+            if ps == "_":
+                return val
+            if "Option::None" in ps or ps == "None":
+                if inp is None:
+                    return val
+                continue
+            if "Some(" in ps:
+                names = [o for o in ORD if o in ps]
+                if "Some(_)" in ps.replace(" ", ""):
+                    names = list(ORD)
+                if inp is not None and inp in names:
+                    return val
+                continue
+            return None
+        return None
+    return None
+
+
+def run_mapping(ctx):
+    """how compare_values turns the Option<Ordering> of values_compare into the answer of each ordering operator: true exactly on
+    the operator's orderings and FALSE when there is no ordering (None: incomparable types, NaN) — `.where()` rejects such an
+    event (its arm yields no value); a negated form (`!= Some(Greater)`) accepts it"""
+    ch = ctx.need_hir(R + "sase::compare_values", rule="mapping")
+    n = 0
+    for m in H.matches_on(ch["body"], lambda t: t.endswith("CompareOp")):
+        for head, pat, arm in H.arm_rows(m):
+            if not (isinstance(head, str) and "CompareOp::" in head):
+                continue
+            op = head.rsplit("::", 1)[1]
+            if op not in WANT:
+                continue
+            n += 1
+            res = {i: ord_eval(arm["body"], i) for i in (None,) + ORD}
+            if any(v is None for v in res.values()):
+                ctx.anchor_lost("mapping", "compare_values arm for %s: body not recognised (%s)" % (op, H.show(arm["body"])[:80]))
+                continue
+            acc = {i for i in ORD if res[i]}
+            if res[None]:
+                ctx.violation("mapping", "%s:incomparable" % op, "`%s` in a sequence-step filter is TRUE when the operands have no ordering (values_compare = None: string vs number, bool, NaN): the step accepts `x %s 5` for x = \"abc\", `.where()` rejects it" % (op, {"Lt": "<", "Le": "<=", "Gt": ">", "Ge": ">="}[op]), site=arm["sp"])
+            elif acc != WANT[op]:
+                ctx.violation("mapping", "%s:orderings" % op, "`%s` in a sequence-step filter holds on the orderings %s; the operator means %s" % (op, sorted(acc), sorted(WANT[op])), site=arm["sp"])
+            else:
+                ctx.ok("mapping", op, "true on %s, false when incomparable" % sorted(acc), site=arm["sp"])
+        break
+    ctx.floor("mapping", "ordering operators of compare_values", n, 4)
+
+
 def run(ctx):
+    ctx.guard("mapping", lambda: run_mapping(ctx))
     ctx.guard("rows", lambda: run_rows(ctx))
     ctx.guard("logic", lambda: run_logic(ctx))
